@@ -399,6 +399,7 @@ def run(ctx: Context) -> None:
         fw = [c for c in calls_in(ed) if callee(ctx, ed, c) == f"{PX}.extract_points"]
         ctx.need('R05.3', len(fw) == 1, f"expected one extract_points call", ed)
         mp = kwarg(fw[0], 'missing_points')
+        mp = flow.resolve(mp) if mp is not None else None
         ok_mp = (isinstance(mp, ast.IfExp) and const_value(mp.body, None) == 'error' and const_value(mp.orelse, None) == 'drop'
                  and isinstance(mp.test, ast.Compare) and isinstance(mp.test.ops[0], ast.Eq)
                  and flow.canon(mp.test.left) == ('param', 'missing_points') and const_value(mp.test.comparators[0], None) == 'error')
